@@ -21,7 +21,8 @@ RULE = ("Reactions of order 0..3 over species A..D; rate constants k = mag * cu*
         "constants = order +-1, time missing or squared, extra mass/length, amount instead of concentration.  "
         "Registries choose length in {m, dm, cm}, time in {s, min, h, ms}, amount in {mol, mmol, umol, nmol}, mass in "
         "{kg, g} independently (10 %: times a scale factor); every system is built for the SI registry and two "
-        "random ones.  Concentrations handed to f_cb are computed with the own table, results are converted back "
+        "random ones; named constants reach the builder as parameters or as quantities through substitutions=.  "
+        "Concentrations handed to f_cb are computed with the own table, results are converted back "
         "with it.  Non-trivial = some registry differs from SI in >= 2 base units and some constant is written in "
         "a unit whose factor to SI is not 1; distinct by case digest.")
 ASSUMPTIONS = ["vlib/gen_units.py SI factors and dimension vectors",
@@ -117,14 +118,16 @@ def _net(r, s):
     return r["prod"].get(s, 0) - r["reac"].get(s, 0)
 
 
-def constant_rhs_species(rxns):
+def constant_rhs_species(rxns, numeric=None):
     """Species whose rate of change contains no concentration (only zero-order reactions touch them).  With
     numeric constants get_odesys hands pyodesys a bare float for them and pyodesys raises AttributeError
-    ('free_symbols') - with or without units (probe), so such systems are outside what callers can build."""
+    ('free_symbols') - with or without units (probe), so such systems are outside what callers can build.
+    numeric: indices of the reactions whose constant is a number in the expressions (default: all); a constant
+    left as a parameter is a symbol."""
     out = []
     for s in species_of(rxns):
-        touching = [r for r in rxns if _net(r, s) != 0]
-        if touching and all(order_of(r) == 0 for r in touching):
+        touching = [j for j, r in enumerate(rxns) if _net(r, s) != 0]
+        if touching and all(order_of(rxns[j]) == 0 and (numeric is None or j in numeric) for j in touching):
             out.append(s)
     return out
 
@@ -146,7 +149,7 @@ def species_of(rxns):
 
 
 @st.composite
-def system_cases(draw, nreg=2, max_rxns=4, conserving=False, named=None, general_ok=True, min_rxns=1):
+def system_cases(draw, nreg=2, max_rxns=4, conserving=False, named=None, general_ok=True, min_rxns=1, subst=False):
     n = draw(st.integers(min_rxns, max_rxns))
     rxns = [draw(reactions(conserving, general_ok)) for _ in range(n)]
     # by construction: a zero-order source feeds a species that some reaction of order >= 1 also changes
@@ -170,8 +173,22 @@ def system_cases(draw, nreg=2, max_rxns=4, conserving=False, named=None, general
             uniq.append(r)
     rxns = uniq
     regs = [dict(G.SI_REGISTRY)] + [draw(G.registries(choices=REG_POOL)) for _ in range(nreg)]
-    return {"rxns": rxns, "c0": draw(concentrations()), "regs": regs,
+    case = {"rxns": rxns, "c0": draw(concentrations()), "regs": regs,
             "named": draw(st.booleans()) if named is None else named}
+    if subst:
+        # named constants handed over as quantities through get_odesys(substitutions=...) instead of as parameters
+        mode = draw(st.sampled_from(["none", "all", "some", "all", "some"]))
+        n = len(rxns)
+        mask = {"none": 0, "all": 2 ** n - 1}.get(mode)
+        if mask is None:
+            mask = draw(st.integers(1, 2 ** n - 1))
+        case["subst"] = [j for j in range(n) if (mask >> j) & 1]
+        # "str": Reaction(..., 'kj') (unique key without a value); "uk": MassAction([k], unique_keys=('kj',))
+        case["kform"] = draw(st.sampled_from(["str", "uk"]))
+        free = n - len(case["subst"])
+        # include_params=True needs a value for every constant: all substituted, or carried by the expression
+        case["include_params"] = bool((free == 0 or case["kform"] == "uk") and draw(st.booleans()))
+    return case
 
 
 # -- reference model ---------------------------------------------------------------------------------------------
@@ -197,7 +214,11 @@ def build_rsys(case, named):
     from chempy import Reaction, ReactionSystem
     rxns = []
     for j, r in enumerate(case["rxns"]):
-        param = ("k%d" % j) if named else G.pq_quantity(r["k"])
+        if named and case.get("kform") == "uk":
+            from chempy.kinetics.rates import MassAction
+            param = MassAction([G.pq_quantity(r["k"])], unique_keys=("k%d" % j,))
+        else:
+            param = ("k%d" % j) if named else G.pq_quantity(r["k"])
         rxns.append(Reaction(dict(r["reac"]), dict(r["prod"]), param))
     return ReactionSystem(rxns, species_of(case["rxns"]))
 
@@ -373,11 +394,26 @@ def check_rates(case, ctx):
     c_si = {s: G.ref_si(q) for s, q in case["c0"].items()}
     rsys = build_rsys(case, named)
     c0_q = {s: G.pq_quantity(case["c0"][s]) for s in sp}
-    p_q = {"k%d" % j: G.pq_quantity(r["k"]) for j, r in enumerate(case["rxns"])} if named else {}
+    subst = list(case.get("subst") or []) if named else []
+    include_params = bool(case.get("include_params")) if named else True
+    p_q = {"k%d" % j: G.pq_quantity(r["k"]) for j, r in enumerate(case["rxns"])
+           if j not in subst and not include_params} if named else {}
+    if named and constant_rhs_species(case["rxns"], range(len(case["rxns"])) if include_params else subst):
+        ctx.label("outside_domain:constant_rhs")
+        return
+    if named and "subst" in case:
+        ctx.label("subst=%s" % ("none" if not subst else "all" if len(subst) == len(case["rxns"]) else "some"),
+                  "kform=" + case["kform"], "include_params=%s" % include_params)
+        if any(G.registry_factor(reg, k_dim(order_of(case["rxns"][j]))) != 1 for j in subst for reg in case["regs"]):
+            ctx.label("subst_constant_unit_differs_in_registry")
     t_end = {"mag": 90.0, "units": [["s", 1]]}
     for ri, reg in enumerate(case["regs"]):
         REG = G.pq_registry(reg)
-        odesys, extra = _get_odesys(rsys, REG, include_params=not named)
+        okw = {}
+        if subst:
+            # fresh quantities per registry: the values are the caller's, in the caller's units
+            okw["substitutions"] = {"k%d" % j: G.pq_quantity(case["rxns"][j]["k"]) for j in subst}
+        odesys, extra = _get_odesys(rsys, REG, include_params=include_params, **okw)
         if tuple(odesys.names) != tuple(sp):
             ctx.fail("species_order", got=list(odesys.names))
             return
@@ -420,7 +456,7 @@ def check_rates(case, ctx):
                          expected=float(want), named=named)
                 return
         # (b) the pre-processing callbacks: quantities in arbitrary units -> registry numbers
-        arrs = sut(odesys.to_arrays, G.pq_quantity(t_end), c0_q, p_q if named else [])
+        arrs = sut(odesys.to_arrays, G.pq_quantity(t_end), c0_q, p_q if p_q else [])
         if is_err(arrs):
             ctx.fail("to_arrays_raised", error=repr(arrs), registry=ri)
             return
@@ -439,6 +475,10 @@ def check_rates(case, ctx):
             for i, v in enumerate(p):
                 if not _close(pa[i], Fraction(v), 4 * CONV_TOL + _unc(case), 0):
                     ctx.fail("to_arrays_param", param=names[i], got=float(pa[i]), expected=v, registry=ri)
+                    return
+            for j in subst:
+                if not _same_quantity(okw["substitutions"]["k%d" % j], case["rxns"][j]["k"]):
+                    ctx.fail("argument_modified", param="k%d" % j, registry=ri)
                     return
             f2 = np.asarray(odesys.f_cb(float(xa[0]), ya, pa), dtype=float)
             for i, s in enumerate(sp):
@@ -682,8 +722,10 @@ SUBCHECKS = [
     SubCheck("rates", check_rates, strategy=system_cases(named=False), quick=200, thorough=2500,
              rule="1-4 reactions with unit-carrying constants; SI + 2 random registries; f_cb and to_arrays",
              tolerances={"rate_rel_of_sum_abs_terms": RATE_TOL, "conversion_rel": CONV_TOL}),
-    SubCheck("rates_named", check_rates, strategy=system_cases(named=True), quick=200, thorough=2500,
-             rule="same with include_params=False and named parameters: extra['p_units'], parameters fed as quantities",
+    SubCheck("rates_named", check_rates, strategy=system_cases(named=True, subst=True), quick=300, thorough=3500,
+             rule="same with named constants (Reaction(..., 'kj') or MassAction([k], unique_keys=('kj',))): none / some / "
+                  "all of them handed over as quantities through substitutions=, the rest left as parameters "
+                  "(include_params=False: extra['p_units'], parameters fed as quantities) or carried by the expression",
              tolerances={"rate_rel_of_sum_abs_terms": RATE_TOL, "conversion_rel": CONV_TOL}),
     SubCheck("integrate", check_integrate, strategy=integrate_cases(), quick=100, thorough=2000,
              rule="molecule-number non-increasing systems, t_end 0.1-2 s; integrate() / unit_aware_solve with "
